@@ -716,8 +716,10 @@ def plan_C15(p, tier, seed):
                 p.add(CustomUnit(lab, factory_unit, ("contracts.message", "c15_set_attribute_single", (T, kind, scaled), lab),
                                  props=("C15",)))
     for arg in ((0, 1), (5, 3), (7, 1), (13, 5), (0, 8)):
-        lab = f"_set_attribute_bits[kw offset={arg[0]} width={arg[1]}]"
-        p.add(CustomUnit(lab, factory_unit, ("contracts.message", "c15_set_attribute_bits", arg, lab), props=("C15",)))
+        for kind in ("int", "float", "str", "bytes", "none"):
+            lab = f"_set_attribute_bits[kw offset={arg[0]} width={arg[1]} any:{kind}]"
+            u = p.add(CustomUnit(lab, factory_unit, ("contracts.message", "c15_set_attribute_bits", arg + (kind,), lab),
+                                 props=("C15",)))
     _kw_units(p, r"/(C03:length|raises:|C03:in-range-values-accepted)")
     vmod = extract.load_module("pyubx2.ubxvariants")[0]
     for mode, tab in vmod.VARIANTS.items():
